@@ -13,8 +13,13 @@ R2 INVALID never escapes (P8).  Every concrete `get_data_locations` returns a co
 R3 invalidation scope.  `_RemotePathMapper.invalidate_location` walks to the node of `path`, sweeps only the
    list stored under (location.deployment, location.name), and recurses into *every* child, only for the data
    locations stored under the same (deployment, name), passing that data location's own location and path.
-R4 source selection.  Every non-None `return loc` of `get_source_location` is preceded, for that very `loc`, by
-   `await loc.available.wait()` and then by the test `loc.data_type == DataType.PRIMARY`.
+R4 source selection.  Every non-None value handed out by `get_source_location` is a loop variable `loc` that, in that
+   very iteration, is preceded by `await loc.available.wait()` and then by the test `loc.data_type == DataType.PRIMARY`
+   (any spelling / operand order, guard clause or nesting).  The value is followed through temporaries (every definition
+   reaching the return: plain assignments, walrus, `found = loc; break` ... `return found`; None definitions are not
+   locations) and through `await <helper>(...)`: the resolved call is followed (nesting bound 2) and every non-None
+   return of the helper is vetted the same way, once per helper, reported in the helper; the helper must be a coroutine.
+   Anything else that is returned (a conditional expression, a parameter, a subscript, an unresolved call) is an analysis error.
 R5 re-registration.  `put` appends a location exactly when its path is absent from `valid_paths[d][n]` (not
    `locations`), so an invalidated path becomes available again; its early `break` at a valid ancestor is
    paired with a bottom-up (`reversed`) sweep and ancestor i is named by path components [0..i];
@@ -76,7 +81,7 @@ META = {
         "Pairing of the two parallel per-node maps of _RemotePathMapper (locations / valid_paths) by node, key path and "
         "value expression with a CFG 'executed together' relation; whole-program write/reference tables for data_type, "
         "DataType.INVALID and path_mapper; shape of the invalidation recursion; dominance of wait + PRIMARY test over "
-        "every returned source location; guard of the append in put; truth table of the get() filter over every enumeration of "
+        "every returned source location (through temporaries and awaited helper coroutines, resolved calls followed); guard of the append in put; truth table of the get() filter over every enumeration of "
         "locations[dep][name] (comprehension clauses, statement loops with append, whole lists). Decides necessary structural conditions only."
     ),
     "undecided": "agreement with a reference model for arbitrary registration/relation/invalidation histories (needs execution)",
@@ -502,46 +507,101 @@ def _always_through(g, starts, targets, through, stop) -> bool:
     return True
 
 
+R4_INLINE = 2  # helpers followed from get_source_location (resolved calls), nesting bound
+R4_CHAIN = 6  # temporaries followed from a returned name
+
+
+def _r4_loop_var(ctx, prog, f, v, lp, at, via, st):
+    """The three obligations of R4 for the loop variable `v` of statement loop `lp`, handed out at statement `at`
+    (the `return v` itself, or the assignment through which `v` reaches a return)."""
+    g = f.cfg
+    bids = ids_at(f, lp.node)
+    rids = ids_at(f, at)
+    st["vetted"] = st.get("vetted", 0) + 1
+    ctx.require(bool(bids) and bool(rids), f"C21.R4: no CFG node for `{unparse(at)[:60]}` / its loop in {f.qualname}")
+    first = [b for i_ in bids for b, k in g.succ[i_] if k == "t"]
+    waits = [n.id for n in g.nodes.values() if any(
+        isinstance(a, ast.Await) and isinstance(a.value, ast.Call) and isinstance(a.value.func, ast.Attribute) and a.value.func.attr == "wait"
+        and ktext(f, a.value.func.value) == f"{v}.available" for a in n.walk())]
+    ok_wait = bool(waits) and _always_through(g, first, rids, waits, bids)
+    text = " ".join(unparse(at).split())[:80]
+    where = f"return in the loop over `{unparse(lp.iter)[:50]}`" + via
+    ctx.ob("R4", f"{where}: `await {v}.available.wait()` precedes the return in the same iteration", ok_wait, func=f, node=at, instance=f"source:{unparse(lp.iter)}:wait",
+           message=f"`{text}`{via} can be reached without awaiting `{v}.available.wait()`: a copy still being transferred is chosen as the source")
+    tests = []
+    for nid in rids:
+        for e, truth, tid in guard_atoms(g, nid):
+            if state_atom(prog, f, e, truth, "PRIMARY", v) is True:
+                tests.append(tid)
+    # the test belongs to this iteration (inside the loop)
+    tests = [t for t in tests if any(x is g.nodes[t].ast for x in ast.walk(lp.node))]
+    ctx.ob("R4", f"{where}: the returned location is tested `data_type == DataType.PRIMARY`", bool(tests), func=f, node=at, instance=f"source:{unparse(lp.iter)}:primary",
+           message=f"`{text}`{via} is not guarded by `{v}.data_type == DataType.PRIMARY`: a location invalidated (or turned into a link) meanwhile is chosen as the source")
+    ok_order = bool(tests) and bool(waits) and all(_always_through(g, first, [t], waits, bids) for t in tests)
+    ctx.ob("R4", f"{where}: the PRIMARY test is evaluated after the wait", ok_order, func=f, node=at, instance=f"source:{unparse(lp.iter)}:order",
+           message=f"data_type is tested before `available.wait()`{via}: an invalidation that happens while waiting is not noticed")
+
+
+def _r4_value(ctx, prog, f, e, at, st, depth, chain, via):
+    """Vet the expression `e`, evaluated at statement/expression `at` of `f`, as a value that get_source_location hands out:
+    None | a loop variable (waited for, then tested PRIMARY, in that iteration) | a temporary holding such a value on every
+    definition that reaches `at` | the awaited result of a program function whose every non-None return is vetted the same way."""
+    if isinstance(e, ast.Constant) and e.value is None:
+        return
+    if isinstance(e, ast.NamedExpr):
+        return _r4_value(ctx, prog, f, e.value, at, st, depth, chain, via)
+    shown = " ".join(unparse(enclosing_stmt(at) or at).split())[:90]
+    if isinstance(e, ast.Name):
+        ctx.require(chain > 0, f"C21.R4: {f.qualname}: too many temporaries behind `{shown}`")
+        # comprehension variables are scoped to their comprehension: they never reach a statement-level read
+        ds = [d for d in reaching_defs(f, e.id, at) if d.kind != "comp"]
+        ctx.require(bool(ds), f"C21.R4: {f.qualname}: no definition of `{e.id}` reaches `{shown}`")
+        loops = [lp for lp in loops_of(f) if not lp.is_comp]
+        for d in ds:
+            if d.kind == "for" and d.index is None:
+                lp = next((x for x in loops if x.node is d.stmt), None)
+                inside = lp is not None and any(x is lp for x in enclosing_loops(f, at, loops))
+                ctx.require(inside, f"C21.R4: {f.qualname}: `{e.id}` in `{shown}` is read outside the loop that binds it (expected `return <loop variable>` inside the loop)")
+                _r4_loop_var(ctx, prog, f, e.id, lp, enclosing_stmt(at) or at, via, st)
+            elif d.kind in ("assign", "walrus") and d.index is None and d.value is not None and d.stmt is not None:
+                _r4_value(ctx, prog, f, d.value, d.stmt, st, depth, chain - 1, via)
+            else:
+                ctx.require(False, f"C21.R4: {f.qualname}: `{e.id}` in `{shown}` is not a loop variable nor a temporary holding one (defined by {d.kind})")
+        return
+    if isinstance(e, ast.Await) and isinstance(e.value, ast.Call):
+        call = e.value
+        qs = prog.resolve_call(f, call)
+        helpers = [prog.functions.get(q) for q in qs]
+        ctx.require(bool(helpers) and all(h is not None for h in helpers),
+                    f"C21.R4: {f.qualname}: cannot interpret `{shown}`: `{unparse(call.func)}` does not resolve to a function of the program ({qs})")
+        ctx.require(depth < R4_INLINE, f"C21.R4: {f.qualname}: helper nesting behind `{shown}` exceeds {R4_INLINE}")
+        for h in helpers:
+            ctx.ob("R4", f"{f.name}: `{shown}` hands out the awaited result of the coroutine {h.qualname} (resolved call followed; its returns are vetted there)", h.is_async,
+                   func=f, node=at, instance=f"source:via:{h.name}:{' '.join(unparse(a) for a in call.args)}",
+                   message=f"`{shown}` hands out the result of {h.qualname}, which is not a coroutine and therefore cannot have awaited `available.wait()`")
+            if h.qualname in st["done"]:
+                continue
+            st["done"].add(h.qualname)
+            _r4_returns(ctx, prog, h, st, depth + 1, f" (in {h.qualname}, followed from {f.qualname})")
+        return
+    ctx.require(False, f"C21.R4: cannot interpret `{shown}` in {f.qualname} (expected `return <loop variable>`, a temporary holding one, or `return await <helper>(...)`)")
+
+
+def _r4_returns(ctx, prog, f, st, depth, via):
+    rets = [n for n in f.body_nodes() if isinstance(n, ast.Return) and n.value is not None and not (isinstance(n.value, ast.Constant) and n.value.value is None)]
+    for r in rets:
+        _r4_value(ctx, prog, f, r.value, r, st, depth, R4_CHAIN, via)
+    return rets
+
+
 def r4(ctx):
     prog = ctx.prog
     f = prog.func(f"{MGR}.get_source_location")
     ctx.require(f.is_async, "C21.R4: get_source_location is no longer a coroutine")
-    g = f.cfg
-    loops = [lp for lp in loops_of(f) if not lp.is_comp]
-    rets = [n for n in f.body_nodes() if isinstance(n, ast.Return) and n.value is not None and not (isinstance(n.value, ast.Constant) and n.value.value is None)]
+    st = {"done": {f.qualname}}
+    rets = _r4_returns(ctx, prog, f, st, 0, "")
     ctx.require(len(rets) >= 1, "C21.R4: get_source_location returns no location")
-    for i, r in enumerate(rets):
-        ctx.require(isinstance(r.value, ast.Name), f"C21.R4: cannot interpret `{unparse(r)}` (expected `return <loop variable>`)")
-        v = r.value.id
-        lb = loop_binding(f, v, r, loops)
-        ctx.require(lb is not None and lb[1] is None, f"C21.R4: `{v}` in `{unparse(r)}` is not a loop variable")
-        lp = lb[0]
-        bids = ids_at(f, lp.node)
-        rids = ids_at(f, r)
-        first = [b for i_ in bids for b, k in g.succ[i_] if k == "t"]
-        waits = [n.id for n in g.nodes.values() if any(
-            isinstance(a, ast.Await) and isinstance(a.value, ast.Call) and isinstance(a.value.func, ast.Attribute) and a.value.func.attr == "wait"
-            and ktext(f, a.value.func.value) == f"{v}.available" for a in n.walk())]
-        ok_wait = bool(waits) and _always_through(g, first, rids, waits, bids)
-        where = f"return in the loop over `{unparse(lp.iter)[:50]}`"
-        ctx.ob("R4", f"{where}: `await {v}.available.wait()` precedes the return in the same iteration", ok_wait, func=f, node=r, instance=f"source:{unparse(lp.iter)}:wait",
-               message=f"`{unparse(r)}` can be reached without awaiting `{v}.available.wait()`: a copy still being transferred is chosen as the source")
-        tests = []
-        for nid in rids:
-            for e, truth, tid in guard_atoms(g, nid):
-                if isinstance(e, ast.Compare) and len(e.ops) == 1:
-                    l, rr = e.left, e.comparators[0]
-                    for a, b in ((l, rr), (rr, l)):
-                        if ktext(f, a) == f"{v}.data_type" and is_member(prog, f, b, "PRIMARY"):
-                            if (isinstance(e.ops[0], (ast.Eq, ast.Is)) and truth) or (isinstance(e.ops[0], (ast.NotEq, ast.IsNot)) and not truth):
-                                tests.append(tid)
-        # the test belongs to this iteration (inside the loop)
-        tests = [t for t in tests if any(x is g.nodes[t].ast for x in ast.walk(lp.node))]
-        ctx.ob("R4", f"{where}: the returned location is tested `data_type == DataType.PRIMARY`", bool(tests), func=f, node=r, instance=f"source:{unparse(lp.iter)}:primary",
-               message=f"`{unparse(r)}` is not guarded by `{v}.data_type == DataType.PRIMARY`: a location invalidated (or turned into a link) meanwhile is chosen as the source")
-        ok_order = bool(tests) and bool(waits) and all(_always_through(g, first, [t], waits, bids) for t in tests)
-        ctx.ob("R4", f"{where}: the PRIMARY test is evaluated after the wait", ok_order, func=f, node=r, instance=f"source:{unparse(lp.iter)}:order",
-               message="data_type is tested before `available.wait()`: an invalidation that happens while waiting is not noticed")
+    ctx.require(st.get("vetted", 0) >= 1, "C21.R4: no wait / PRIMARY test obligation was established for any returned location")
 
 
 # --------------------------------------------------------------------------- R5
@@ -974,6 +1034,19 @@ _GET_LOOPS = ("result = []\n    for dep in [deployment] if deployment is not Non
 _GET_FLAT = ("deployments = [deployment] if deployment is not None else node.locations\n"
              "    return [loc for dep in deployments for n in ([name] if name is not None else node.locations.get(dep, {})) "
              "for loc in node.locations.get(dep, {}).get(n, []) if not (data_type is not None and loc.data_type != data_type)]")
+_SRC_LOOPS = ("for loc in same_connector_locations:\n                await loc.available.wait()\n                if loc.data_type == DataType.PRIMARY:\n                    return loc\n"
+              "        if (local_locations := {loc for loc in data_locations if loc.location.local}):\n"
+              "            for loc in local_locations:\n                await loc.available.wait()\n                if loc.data_type == DataType.PRIMARY:\n                    return loc\n"
+              "        for loc in data_locations:\n            await loc.available.wait()\n            if loc.data_type == DataType.PRIMARY:\n                return loc")
+_SRC_HELPED = ("if (loc := (await _wait_primary_location(same_connector_locations))) is not None:\n                return loc\n"
+               "        if (local_locations := {loc for loc in data_locations if loc.location.local}):\n"
+               "            if (loc := (await _wait_primary_location(local_locations))) is not None:\n                return loc\n"
+               "        return await _wait_primary_location(data_locations)")
+_SRC_HELPER = ("async def _wait_primary_location(data_locations):\n    for loc in data_locations:\n        await loc.available.wait()\n"
+               "        if loc.data_type == DataType.PRIMARY:\n            return loc\n    return None\n")
+_SRC_FOUND = ("found = None\n        for loc in data_locations:\n            await loc.available.wait()\n            if loc.data_type == DataType.PRIMARY:\n"
+              "                found = loc\n                break\n        return found")
+_SRC_LAST = "for loc in data_locations:\n            await loc.available.wait()\n            if loc.data_type == DataType.PRIMARY:\n                return loc"
 _GET_APPEND = ("result = []\n    for dep in [deployment] if deployment is not None else node.locations:\n"
                "        for n in [name] if name is not None else node.locations.get(dep, {}):\n"
                "            for loc in node.locations.get(dep, {}).get(n, []):\n"
@@ -1036,6 +1109,18 @@ VARIANTS = [
       "for loc in local_locations:\n                if loc.data_type == DataType.PRIMARY:\n                    await loc.available.wait()\n                    return loc", "R4"),
     V("PRIMARY test inverted", FILE, f"{MGR}.get_source_location",
       "for loc in data_locations:\n            await loc.available.wait()\n            if loc.data_type == DataType.PRIMARY:", "for loc in data_locations:\n            await loc.available.wait()\n            if loc.data_type != DataType.PRIMARY:", "R4"),
+    V("B15-1 shape: the extracted helper returns before the wait", FILE, f"{MGR}.get_source_location", _SRC_LOOPS, _SRC_HELPED, "R4",
+      append=_SRC_HELPER.replace("        await loc.available.wait()\n", "")),
+    V("B15-1 shape: the extracted helper tests PRIMARY before the wait", FILE, f"{MGR}.get_source_location", _SRC_LOOPS, _SRC_HELPED, "R4",
+      append=_SRC_HELPER.replace("        await loc.available.wait()\n        if loc.data_type == DataType.PRIMARY:\n            return loc",
+                                 "        if loc.data_type == DataType.PRIMARY:\n            await loc.available.wait()\n            return loc")),
+    V("B15-1 shape: the extracted helper drops the PRIMARY test", FILE, f"{MGR}.get_source_location", _SRC_LOOPS, _SRC_HELPED, "R4",
+      append=_SRC_HELPER.replace("        if loc.data_type == DataType.PRIMARY:\n            return loc", "        return loc")),
+    V("B15-1 shape: the helper is not a coroutine (cannot wait)", FILE, f"{MGR}.get_source_location", _SRC_LOOPS, _SRC_HELPED.replace("return await _wait_primary_location(data_locations)", "return await _first_primary(data_locations)"), "R4",
+      append=_SRC_HELPER + "\n\ndef _first_primary(data_locations):\n    for loc in data_locations:\n        if loc.data_type == DataType.PRIMARY:\n            return loc\n    return None\n"),
+    V("found/break shape: the candidate is taken before the wait", FILE, f"{MGR}.get_source_location", _SRC_LAST,
+      _SRC_FOUND.replace("            await loc.available.wait()\n            if loc.data_type == DataType.PRIMARY:\n                found = loc",
+                         "            if loc.data_type == DataType.PRIMARY:\n                found = loc"), "R4"),
     # ---- R5
     V("put: guard tests locations instead of valid_paths", FILE, f"{M}.put", _PUT_GUARD,
       "if location.path in node.locations.get(location.deployment, {}).get(location.name, set()):", "R5"),
@@ -1080,6 +1165,10 @@ VARIANTS = [
       "data_loc.data_type = DataType.INVALID\n        node.valid_paths[location.deployment][location.name].discard(data_loc.path)",
       "node.valid_paths[location.deployment][location.name].discard(data_loc.path)\n        data_loc.data_type = DataType.INVALID", None),
     V("benign: discard -> remove", FILE, f"{M}.invalidate_location", ".discard(data_loc.path)", ".remove(data_loc.path)", None),
+    V("benign: B15-1 the three wait-and-check loops extracted into one module-level coroutine", FILE, f"{MGR}.get_source_location", _SRC_LOOPS, _SRC_HELPED, None,
+      append=_SRC_HELPER),
+    V("benign: fallback loop records the chosen location in a temporary and breaks", FILE, f"{MGR}.get_source_location", _SRC_LAST, _SRC_FOUND, None),
+    V("benign: returned location through a temporary", FILE, f"{MGR}.get_source_location", _SRC_LAST, _SRC_LAST.replace("return loc", "chosen = loc\n                return chosen"), None),
     V("benign: rename loop variable", FILE, f"{MGR}.get_source_location", "for loc in data_locations:\n            await loc.available.wait()\n            if loc.data_type == DataType.PRIMARY:\n                return loc",
       "for candidate in data_locations:\n            await candidate.available.wait()\n            if candidate.data_type == DataType.PRIMARY:\n                return candidate", None),
     V("benign: temporaries for the keys in _remove_node", FILE, f"{M}._remove_node",
